@@ -150,8 +150,10 @@ func harness_C07_dmarc() {
 	if useHelo {
 		spf.Helo = spfDom
 	} else {
+		// the HELO name is arbitrary (the client picks it freely); it is not the
+		// SPF identity when the reverse-path is not null
 		spf.From = spfDom
-		spf.Helo = "mail.example.net"
+		spf.Helo = nondetChoiceStr("heloName", doms...)
 	}
 	// SPF result position among the results is arbitrary
 	if verifParam("spfFirst", 2) == 1 || (verifParam("spfFirst", 2) == 2 && nondetBool("spfFirst")) {
